@@ -531,6 +531,23 @@ Proof.
   eexists. split; [reflexivity|]. repeat split; discriminate.
 Qed.
 
+(* ---- the URL derived for a TLS web socket: built from the WRITTEN host ----------
+   (Address.Host() of the file's address, an input of the model: no resolver occurs
+   anywhere in the model, so no result depends on the reading process's name service) *)
+Definition tls_url_prefix : bytes := bs "https://".
+Definition colon : bytes := bs ":".
+
+Theorem tls_url_from_written_host f r c k sk p l :
+  co_suite_known c = true -> co_pub c = Some k -> co_priv c = Some sk ->
+  parse_services f r (co_srv c) = Some l ->
+  co_tlskey c <> [] -> co_url c = [] -> co_port c = Some p ->
+  exists i, get_server_identity f r c = IOk i /\
+            i_url i = tls_url_prefix ++ co_host c ++ colon ++ dec_of_Z (p + 1).
+Proof.
+  intros Hs Hk Hsk Hl Ht Hu Hp. unfold get_server_identity. rewrite Hs, Hk, Hsk, Hl, Hu, Hp. simpl.
+  destruct (co_tlskey c); [contradiction|]. eexists. split; reflexivity.
+Qed.
+
 (* ======================================================================== *)
 (* roster files                                                               *)
 
